@@ -914,8 +914,14 @@ class MatrixProduct:
         else:
             assert self.qnidx == self.site_num-1
 
+        idx = None
         for idx in self.iter_idx_list(full=False, stop_idx=stop_idx):
             self._push_cano(idx)
+        if idx is None:
+            # empty sweep: a one-site chain (a complete sweep) or `stop_idx` is the current centre
+            if stop_idx is None:
+                self._switch_direction()
+            return self
         # can't iter to idx == 0 or idx == self.site_num - 1
         if (not self.to_right and idx == 1) or (self.to_right and idx == self.site_num - 2):
             self._switch_direction()
